@@ -1146,3 +1146,100 @@ Proof.
   assert (H : parse_within (parse_depth s) s = true) by (apply parse_depth_spec; lia).
   unfold parse_within in H. intro Hn. rewrite Hn in H. discriminate H.
 Qed.
+
+(* ---------- 2d. the type Parse returns is no deeper than the parse ---------- *)
+Definition dp_node (f : nat) (n : snode) : Prop := forall t, extract_value n = Some t -> ty_depth t <= f.
+
+Lemma extract_types_depth : forall f xs ts, Forall (dp_node f) xs -> extract_types xs = Some ts ->
+  fold_right (fun t a => Nat.max (ty_depth t) a) 0 ts <= f.
+Proof.
+  intros f xs ts HF. revert ts. induction HF as [|x xs Hx HF IH]; cbn [extract_types]; intros ts H.
+  - inversion H. cbn. lia.
+  - destruct (extract_value x) as [t|] eqn:E; [|discriminate].
+    destruct (extract_types xs) as [ts'|]; [|discriminate]. inversion H; subst.
+    cbn [fold_right]. specialize (Hx t E). specialize (IH ts' eq_refl). lia.
+Qed.
+
+Lemma combine_depth : forall f (names : list string) ts, fold_right (fun t a => Nat.max (ty_depth t) a) 0 ts <= f ->
+  fold_right (fun (x : string * ty) a => Nat.max (ty_depth (snd x)) a) 0 (combine names ts) <= f.
+Proof.
+  intros f names. induction names as [|a names IH]; intros ts H; [cbn; lia|].
+  destruct ts as [|t ts]; [cbn; lia|]. cbn [combine fold_right snd] in *. specialize (IH ts). lia.
+Qed.
+
+Lemma basic_depth : forall s n r, fst (basic_type s) = Ok n r -> forall f, dp_node (S f) (NList [n]).
+Proof.
+  intros s n r H f. unfold basic_type in H. apply por_inv in H as (p & m & _ & _ & ->).
+  intros t Ht. cbn in Ht. unfold nodify_basic in Ht.
+  destruct m as [v| | | |]; try discriminate.
+  destruct (scalar_of_letter v); [|discriminate]. inversion Ht. cbn. lia.
+Qed.
+
+Lemma decl_depth : forall f s n r, fst (decl f s) = Ok n r -> dp_node f n.
+Proof.
+  induction f as [|f IH]; intros s n r H; [discriminate|].
+  rewrite decl_S in H. apply por_inv in H as (p & m & Hin & Hp & ->).
+  cbn [In] in Hin. destruct Hin as [<-|[<-|[<-|[<-|[<-|[]]]]]].
+  - now apply (basic_depth _ _ _ Hp).
+  - unfold map_type in Hp. apply pand_inv in Hp as (ns & Hand & ->).
+    apply and_ok_cons_inv in Hand as (x1 & s1 & ns1 & -> & H1 & Hand).
+    apply and_ok_cons_inv in Hand as (x2 & s2 & ns2 & -> & H2 & Hand).
+    apply and_ok_cons_inv in Hand as (x3 & s3 & ns3 & -> & H3 & Hand).
+    apply and_ok1 in Hand as (x4 & -> & H4).
+    intros t Ht. cbn in Ht.
+    destruct (extract_value x2) as [a|] eqn:Ea; [|discriminate].
+    destruct (extract_value x3) as [b|] eqn:Eb; [|discriminate].
+    inversion Ht; subst. cbn [ty_depth].
+    pose proof (IH _ _ _ H2 a Ea). pose proof (IH _ _ _ H3 b Eb). lia.
+  - unfold array_type in Hp. apply pand_inv in Hp as (ns & Hand & ->).
+    apply and_ok_cons_inv in Hand as (x1 & s1 & ns1 & -> & H1 & Hand).
+    apply and_ok_cons_inv in Hand as (x2 & s2 & ns2 & -> & H2 & Hand).
+    apply and_ok1 in Hand as (x3 & -> & H3).
+    intros t Ht. cbn in Ht.
+    destruct (extract_value x2) as [a|] eqn:Ea; [|discriminate].
+    inversion Ht; subst. cbn [ty_depth]. pose proof (IH _ _ _ H2 a Ea). lia.
+  - unfold struct_type in Hp. apply pand_inv in Hp as (ns & Hand & ->).
+    apply and_ok_cons_inv in Hand as (x1 & s1 & ns1 & -> & H1 & Hand).
+    apply and_ok_cons_inv in Hand as (x2 & s2 & ns2 & -> & H2 & Hand).
+    apply and_ok_cons_inv in Hand as (x3 & s3 & ns3 & -> & H3 & Hand).
+    apply and_ok_cons_inv in Hand as (x4 & s4 & ns4 & -> & H4 & Hand).
+    apply and_ok_cons_inv in Hand as (x5 & s5 & ns5 & -> & H5 & Hand).
+    apply and_ok_cons_inv in Hand as (x6 & s6 & ns6 & -> & H6 & Hand).
+    apply and_ok1 in Hand as (x7 & -> & H7).
+    apply kleene_inv in H2 as (xs & -> & Hxs & _).
+    apply struct_name_out in H5 as (name & -> & Hname).
+    apply kleene_inv in H6 as (ms & -> & Hms & _).
+    intros t Ht. cbn in Ht.
+    destruct (extract_types xs) as [ts|] eqn:Ets; [|discriminate].
+    destruct (extract_names ms) as [names|] eqn:Ens; [|discriminate].
+    destruct (Nat.eqb (List.length ts) (List.length names)); [|discriminate].
+    inversion Ht; subst. cbn [ty_depth]. apply le_n_S. apply combine_depth.
+    apply (extract_types_depth f xs); [|assumption].
+    rewrite Forall_forall in Hxs |- *. intros x Hx. destruct (Hxs x Hx) as (u1 & u2 & Hm). now apply IH in Hm.
+  - unfold tuple_type in Hp. apply pand_inv in Hp as (ns & Hand & ->).
+    apply and_ok_cons_inv in Hand as (x1 & s1 & ns1 & -> & H1 & Hand).
+    apply and_ok_cons_inv in Hand as (x2 & s2 & ns2 & -> & H2 & Hand).
+    apply and_ok1 in Hand as (x3 & -> & H3).
+    apply kleene_inv in H2 as (xs & -> & Hxs & _).
+    intros t Ht. cbn in Ht.
+    destruct (extract_types xs) as [ts|] eqn:Ets; [|discriminate].
+    inversion Ht; subst. cbn [ty_depth]. apply le_n_S. apply (extract_types_depth f xs); [|assumption].
+    rewrite Forall_forall in Hxs |- *. intros x Hx. destruct (Hxs x Hx) as (u1 & u2 & Hm). now apply IH in Hm.
+Qed.
+
+(* the type is no deeper than the parse that made it: a deep type needs a deep parse *)
+Theorem parse_depth_ty : forall s t, parse_m s = POk t -> ty_depth t <= parse_depth s.
+Proof.
+  intros s t H. rewrite parse_m_eq in H. unfold parse_fuel_m in H.
+  rewrite (decl_m_stable s (S (String.length s))) in H by (pose proof (parse_depth_le_length s); lia).
+  rewrite (decl_m_decl (parse_depth s) s) in H.
+  destruct (fst (decl (parse_depth s) s)) as [root rest| | |] eqn:E; cbn [finish] in H; try discriminate.
+  destruct (is_empty rest); [|discriminate].
+  destruct root as [| | | |[|[|x| | |] []]]; try discriminate.
+  inversion H; subst. apply decl_depth in E. apply E. reflexivity.
+Qed.
+Corollary parse_opt_depth : forall s t, parse_opt s = Some t -> ty_depth t <= open_count s + 1.
+Proof.
+  intros s t H. unfold parse_opt in H. destruct (parse s) as [t'| |] eqn:E; try discriminate. inversion H; subst.
+  rewrite <- parse_m_parse in E. pose proof (parse_depth_ty s t E). pose proof (parse_depth_le_open_count s). lia.
+Qed.
